@@ -436,17 +436,19 @@ fn histories(u: &mut Universe, depth: usize) {
 /// whose first constructor is the history's declaration at that version (a unit variant when the
 /// declaration has no field, a struct variant otherwise)
 fn variant_histories(u: &mut Universe) {
-    let mut picked = 0;
+    let mut picked: HashMap<Vec<BaseField>, usize> = HashMap::new();
     for hi in 0..u.histories.len() {
         let h = u.histories[hi].clone();
-        // histories that start from nothing or from one field and only add / make optional
+        // histories that start from nothing (a unit constructor) or from one field and only add
+        // fields / make them optional; a few per base
         let simple = h.steps.iter().all(|s| matches!(s, HStep::Add { first: false, .. } | HStep::MakeOptional(_)));
         if !(h.base.len() <= 1 && h.steps.len() == 2 && simple) {
             continue;
         }
-        picked += 1;
-        if picked > 12 {
-            break;
+        let n = picked.entry(h.base.clone()).or_insert(0);
+        *n += 1;
+        if *n > 4 {
+            continue;
         }
         let mut names = Vec::new();
         for k in 0..=h.steps.len() {
